@@ -39,9 +39,12 @@ type Machine struct {
 	rtypeMethods   methodSet
 	errorMethods   methodSet
 
-	s2mu    sync.Mutex
-	s2cache map[string]*Stage2
-	s2seq   int
+	s2mu      sync.Mutex
+	s2cache   map[string]*Stage2
+	s2seq     int
+	s2byPkg   sync.Map // *ssa.Package -> *Stage2
+	s2extraMu sync.Mutex
+	s2extra   map[string]*types.Package
 
 	// FuncsExecuted counts calls per interpreted function (evidence: "functions encoded").
 	statMu        sync.Mutex
@@ -171,6 +174,17 @@ func (i *interpreter) globalCell(g *ssa.Global) *value {
 	if c, ok := i.globals[g]; ok {
 		return c
 	}
+	if g.Pkg != nil && strings.HasPrefix(g.Name(), "ZZH") {
+		if s2, ok := i.m.s2byPkg.Load(g.Pkg); ok {
+			if u, ok := s2.(*Stage2).Uses[g.Name()]; ok && i.x != nil {
+				if hv, ok := i.x.holeValueFor(u); ok {
+					i.globals[g] = &hv
+					return &hv
+				}
+				panic(unsupported("hole variable " + g.Name() + " has no term on this path"))
+			}
+		}
+	}
 	cell := zero(mustDeref(g.Type()))
 	if g.Pkg != nil && g.Pkg.Pkg.Path() == "os" {
 		switch g.Name() {
@@ -189,7 +203,8 @@ type pathAbort struct{ outcome, msg string }
 func (m *Machine) runPath(fn *ssa.Function, script []int, sv *Solver, pool *Pool, opts ExploreOpts) (res *PathResult) {
 	res = &PathResult{Emits: map[string]string{}, Witnesses: map[string]string{}}
 	x := &Explorer{sv: sv, pool: pool, Script: append([]int{}, script...), declared: map[string]bool{},
-		evalSet: map[string]bool{}, res: res, maxSteps: opts.MaxSteps, s2: map[string]*Stage2{}, fnFuel: map[string]int{}}
+		evalSet: map[string]bool{}, res: res, maxSteps: opts.MaxSteps, s2: map[string]*Stage2{}, fnFuel: map[string]int{},
+		params: opts.Params, opaqueSrc: map[*value]*docNode{}}
 	i := &interpreter{
 		prog:       m.Prog,
 		globals:    make(map[*ssa.Global]*value),
@@ -211,6 +226,9 @@ func (m *Machine) runPath(fn *ssa.Function, script []int, sv *Solver, pool *Pool
 	defer func() {
 		res.Script = x.Script
 		res.Steps = i.steps
+		for _, d := range x.docs {
+			d.collect(&res.Docs)
+		}
 		res.Decls = x.Decls
 		res.PC = x.PC
 		m.statMu.Lock()
